@@ -81,9 +81,20 @@ func vValueFile(dir, ext string, v1, v2 uint64) string {
 	vNameSeq++
 	name := dir + "/#" + string(rune('a'+vNameSeq)) + ext
 	vNameVals[name] = vPair{v1, v2}
-	vNameExt[name] = ext
+	vNameExt[name] = vKey(dir, ext)
 	return name
 }
+
+// vKey: the ghost directory entry for (dir, ext). The default storage directory keeps the bare extension as key;
+// a second node's directory (cluster harnesses) gets its own entries.
+func vKey(dir, ext string) string {
+	if dir == vDir {
+		return ext
+	}
+	return dir + ext
+}
+
+func vDiskInitAt(dir, ext string, v1, v2 uint64) { vDiskInit(vKey(dir, ext), v1, v2) }
 
 func vDiskInit(ext string, v1, v2 uint64) {
 	vDisk[ext] = &vDirEnt{vol: vPair{v1, v2}, dur: vPair{v1, v2}}
@@ -128,11 +139,13 @@ func vVolatile(ext string) (uint64, uint64) { d := vDisk[ext]; return d.vol.v1, 
 
 const vDir = "/ghost"
 
-func vMkRaft(nid uint64) *Raft {
+func vMkRaft(nid uint64) *Raft { return vMkRaftAt(vDir, nid) }
+
+func vMkRaftAt(dir string, nid uint64) *Raft {
 	st := &storage{
-		idVal:   &value{dir: vDir, ext: ".id"},
-		termVal: &value{dir: vDir, ext: ".term"},
-		snaps:   &snapshots{dir: vDir + "/snapshots", retain: 1, used: make(map[uint64]int)},
+		idVal:   &value{dir: dir, ext: ".id"},
+		termVal: &value{dir: dir, ext: ".term"},
+		snaps:   &snapshots{dir: dir + "/snapshots", retain: 1, used: make(map[uint64]int)},
 	}
 	st.nid = nid
 	r := &Raft{
